@@ -31,3 +31,23 @@ PROPS["C19"] = dict(
                 "definitions for strings of every length (Verus, loop invariants over the consumed prefix); the "
                 "table contents are proved entry by entry by Kani against the defining recurrences.",
 )
+
+PROPS["C18"] = dict(
+    units=[],
+    kani_quick=["c18_attr_byte_roundtrip", "c18_attr_tuple_roundtrip", "c18_cp437_table_injective",
+                "c18_cp437_ascii_identity", "c18_atascii_table_injective_128", "c18_atascii_ascii_identity",
+                "c18_petscii_pairs_distinct", "c18_petscii_alnum_closed", "c18_viewdata_alnum_identity",
+                "c18_viewdata_alnum_unique", "c18_mode7_alnum_identity", "c18_mode7_alnum_unique"],
+    kani_bounded={},
+    trusted_base=COMMON_TRUST[:1] + [
+        "std HashMap insert/get/collect semantics for the lazily built reverse maps (UNICODE_TO_CP437, UNICODE_TO_ATARI, "
+        "UNICODE_TO_PETSCII, PETSCII_TO_UNICODE, UNICODE_TO_VIEWDATA): from(to(c)) == c is derived from the table "
+        "facts proved here (injectivity / identity on alphanumerics / last-index-wins) plus those semantics; "
+        "Kani cannot execute a std HashMap (measured), so this step is assumed",
+    ],
+    unverified_remainder=["the HashMap-building closures inside lazy_static! (see trusted base)"],
+    engine="kani (KC)",
+    technique="complete-finite Kani harnesses (loop-free, full-domain symbolic inputs) on the real codec functions and tables",
+    explanation="All 256 attribute bytes x 3 modes, all (fg,bg,blink,bold) tuples expressible in a mode, and the "
+                "code-page tables (symbolic index pairs) are decided exhaustively by CBMC on the real functions.",
+)
